@@ -30,6 +30,7 @@ from pycel.excelutil import (
     is_address,
     iterative_eval_tracker,
     list_like,
+    PyCelException,
 )
 from pycel.excelwrapper import ExcelOpxWrapper, ExcelOpxWrapperNoData
 
@@ -282,7 +283,12 @@ class ExcelCompiler:
             excel_compiler._make_cells(address)
             add_line_numbers(address.address, lineno)
 
-        excel_compiler._process_gen_graph()
+        try:
+            excel_compiler._process_gen_graph()
+        except PyCelException:
+            # a cell which can not be calculated fails when it is evaluated,
+            # as in the model that was saved, not when the file is loaded
+            pass
         del data['cell_map']
 
         # process the rest of the data from the file
